@@ -191,6 +191,82 @@ def j8(rep):
         rep.ok("J8", "right-operand-equal-precedence")
 
 
+def j9(rep, rows, by):
+    """The translation of a builtin call by method (J2 assumes: GJ_Op -> operator over the operands in order, GJ_OpMod ->
+    (a op b) % n, GJ_Apply -> Class.method(operands), GJ_Meth -> a.method(rest), GJ_Cast -> (T) a) is read off the handler
+    functions themselves: they are evaluated symbolically (rules/listeval.py) with the operand list [A0, A1, ...]."""
+    from . import listeval
+    handlers = {}
+    f0 = common.extract("java/genjava.c", trees=["gj0BCall"])
+    sws = [x for x in walk(f0.func("gj0BCall")["body"]) if x["k"] == "SwitchStmt"]
+    if len(sws) != 1:
+        raise AnalysisBroken("gj0BCall: expected one switch over inf->method")
+    for g in common.switch_cases(sws[0]):
+        cs = [c.get("callee") for st in g["stmts"] for c in calls(st) if (c.get("callee") or "").startswith("gj0BCall")]
+        for lab in g["labels"]:
+            if lab[0] and lab[0].startswith("GJ_") and len(cs) == 1:
+                handlers[lab[0]] = cs[0]
+    want = ("GJ_Op", "GJ_OpMod", "GJ_Apply", "GJ_Meth", "GJ_Cast")
+    missing = [m for m in want if m not in handlers]
+    if missing:
+        raise AnalysisBroken("gj0BCall: no handler found for %s" % missing)
+    f = common.extract("java/genjava.c", trees=sorted(set(handlers[m] for m in want)))
+    shapes = {}
+    for r in rows:
+        inf = by.get(r["tag"])
+        if inf is None or r["method"] not in want:
+            continue
+        shapes.setdefault((r["method"], inf["argCount"], r["c1"] is None), r["tag"])
+    n = 0
+    for (m, argc, c1null), sample in sorted(shapes.items()):
+        fn = f.func(handlers[m])
+        key = "handler:%s/%d%s" % (m, argc, "" if c1null else "+const")
+        where = "genjava.c:%d (%s)" % (fn["l"], handlers[m])
+        ev = listeval.Evaluator(argc, {"c1": c1null, "c2": False})
+        try:
+            t = ev.run(fn["body"])
+        except listeval.Unknown as e:
+            raise AnalysisBroken("%s for %d operands could not be evaluated: %s" % (handlers[m], argc, e))
+        A = [("arg", i) for i in range(argc)]
+        n += 1
+
+        def is_call(t_, name, k):
+            return t_[0] == "call" and t_[1] == name and len(t_) == 2 + k
+        ok, got = False, None
+        if m == "GJ_Op":
+            if is_call(t, "jcOp", 2) and t[2] == ("row", "gjTag") and t[3][0] == "list":
+                got = t[3][1]
+                exp = A if c1null else A + [got[-1]] if got and got[-1][0] == "call" else None
+                ok = exp is not None and got == exp
+        elif m == "GJ_OpMod":
+            if is_call(t, "jcBinOp", 3) and t[2] == ("enum", "JCO_OP_Modulo") and is_call(t[3], "jcOp", 2) and t[3][3][0] == "list":
+                got = t[3][3][1] + [t[4]]
+                ok = argc == 3 and got == A
+        elif m == "GJ_Apply":
+            if is_call(t, "jcApplyMethod", 3) and t[4][0] == "list":
+                got = t[4][1]
+                ok = got == A
+        elif m == "GJ_Meth":
+            if is_call(t, "jcApplyMethod", 3) and t[4][0] == "list":
+                got = [t[2]] + t[4][1]
+                ok = got == A
+        elif m == "GJ_Cast":
+            if is_call(t, "jcCast", 2):
+                got = [t[3]]
+                ok = got == A[:1]
+        if got is None:
+            raise AnalysisBroken("%s: result `%s` does not have the constructor shape J2 assumes" % (handlers[m], (t,)))
+        if ok:
+            rep.ok("J9", key, sample={"builtin": sample, "operands": [a[1] if a[0] == "arg" else "const" for a in got]})
+        else:
+            rep.violation("J9", key, where,
+                          "for a builtin with %d operands (e.g. %s) the handler hands the operands to the Java constructor as %s "
+                          "instead of A0..A%d in order: a non-commutative builtin translated by this method computes a different "
+                          "value in Java than in the interpreter and in C"
+                          % (argc, sample[len("FOAM_BVal_"):], [("A%d" % a[1]) if a[0] == "arg" else "const" for a in got], argc - 1))
+    rep.floor("(method, operand count) shapes evaluated", n, 8)
+
+
 def run(tier, only=None):
     rep = common.Report("C12", tier, EXPLANATION)
     f_foam = common.extract("foam.c")
@@ -503,4 +579,5 @@ def run(tier, only=None):
         rep.note("J5b not evaluated: %s" % e)
     j7(rep)
     j8(rep)
+    j9(rep, rows, by)
     return rep
